@@ -34,9 +34,8 @@ Definition agrees (k : case) : bool :=
   run_agrees root (init_world root) (init_cat root) (map dec_op (k_ops k)) (map dec_obs (k_obs k))
   && paths_agree 100 (blob (k_paths k)).
 
-(** the guard of the guarded theorem: no prefix of a create/write key's item list climbs above its
-    start (Catalog.op_guard) *)
-Definition in_domain (k : case) : bool := forallb (fun p => op_guard (mk_op (dec_op p))) (k_ops k).
+(** no guard any more: the theorem holds for all keys *)
+Definition in_domain (k : case) : bool := true.
 
 (** the property on the model: every mutating system call of the run stays inside the root *)
 Definition model_confined (k : case) : bool :=
